@@ -24,7 +24,7 @@ PROP = dict(
                            "state:depth>=3": 5000, "doc:with-long-token": 15000,
                            "fault:getc-error-delivered": 15000, "fault:save-refused": 5000,
                            "state:merged-into-existing": 30000, "state:flat-section-open-at-eof": 5000}),
-              dict(name="c08_cxx", src=["c08_cxx.cpp", "c08_gen.c"], libs=["mpt++", "mptio", "mptplot", "mptcore"], batch=256, lsan=True,
+              dict(name="c08_cxx", memcheck=500, src=["c08_cxx.cpp", "c08_gen.c"], libs=["mpt++", "mptio", "mptplot", "mptcore"], batch=256, lsan=True,
                    floors={"parser::read": 60000, "config_parser::set_format": 60000, "set_format:refused": 200,
                            "outcome:accepted": 15000, "outcome:rejected": 25000,
                            "monitor:snapshot-compared-nonempty": 15000, "monitor:result-nodes-read": 50000})],
